@@ -481,13 +481,12 @@ def overrides(chk):
         chk.ok(rule, cls.qual, "supply, utilisation and allocation are inherited from the forwarding decorator", node=cls.node)
 
 
-def failure_paths_write_nothing(chk):
+def failure_paths_write_nothing(chk, cls_qual=None, rule="O6.7"):
     """O6.7: the target only ever receives values that went through the floor and the clamps.  A write to the target's demand
     (or to the own record) on a FAILURE path -- inside an except handler or a finally block -- hands it something else: a
     'rollback' to the unrounded internal demand, limited against the supply seen at an earlier write"""
     prog = chk.program
-    rule = "O6.7"
-    cls = prog.cls(STD)
+    cls = prog.cls(cls_qual or STD)
     n = 0
     ok = True
     for fis in cls.methods.values():
